@@ -50,6 +50,7 @@ Definition enc_event (e : event) : sexp :=
   | EvRow i t => L [A 1; enc_str i; enc_str t]
   | EvEnter b o => L [A 2; enc_bt b; enc_bool o]
   | EvEnd i => L [A 3; enc_str i]
+  | EvPush => L [A 4]
   end.
 Definition enc_value (v : value) : sexp :=
   match v with VS s => L [A 0; enc_str s] | VL l => L [A 1; L (map enc_str l)] end.
